@@ -105,6 +105,9 @@ Proof. reflexivity. Qed.
 (* ------------------------------------------------------------------ one transfer of a case
    target: a VolatileSlice window of the host byte list, a region, or a list of regions (as in C14) *)
 Inductive otarget := OSlice (soff slen : N) | ORegion (r : region) | OGuest (L : list region).
+(* bytes of guest memory behind a target: the bound on what one transfer can move *)
+Definition tbytes (t : otarget) : N :=
+  match t with OSlice _ slen => slen | ORegion r => g_len r | OGuest L => fold_right (fun r acc => g_len r + acc) 0 L end.
 Inductive oxfer := XRdUpTo (k : rkind) | XRdExact (k : rkind) | XWrUpTo (k : wkind) | XWrAll (k : wkind).
 
 (* result class of a transfer: 0 a success value, 1 an error value *)
